@@ -65,15 +65,26 @@ def run_verus(gen_path, rlimit=30, timeout=600, extra=None):
            "--multiple-errors", "8", "--rlimit", str(rlimit)] + (extra or []) + ["--", "--error-format=json"]
     t0 = time.time()
     env = dict(os.environ)
+    # own process group: on timeout the whole group (rust_verify AND its z3 children, which ignore rlimit inside nlsat)
+    # is killed; otherwise orphaned z3 processes keep a core busy for hours
+    import signal
+    proc = subprocess.Popen(cmd, stdout=subprocess.PIPE, stderr=subprocess.PIPE, text=True, cwd=os.path.dirname(gen_path), env=env,
+                            start_new_session=True)
     try:
-        p = subprocess.run(cmd, capture_output=True, text=True, timeout=timeout, cwd=os.path.dirname(gen_path), env=env)
-        rc, out, err = p.returncode, p.stdout, p.stderr
+        out, err = proc.communicate(timeout=timeout)
+        rc = proc.returncode
         timed_out = False
-    except subprocess.TimeoutExpired as e:
-        rc, out, err = -9, (e.stdout or b"").decode() if isinstance(e.stdout, bytes) else (e.stdout or ""), \
-            (e.stderr or b"").decode() if isinstance(e.stderr, bytes) else (e.stderr or "")
+    except subprocess.TimeoutExpired:
+        try:
+            os.killpg(proc.pid, signal.SIGKILL)
+        except Exception:
+            pass
+        try:
+            out, err = proc.communicate(timeout=20)
+        except Exception:
+            out, err = "", ""
+        rc = -9
         timed_out = True
-        subprocess.run(["pkill", "-f", gen_path], capture_output=True)
     wall = time.time() - t0
     res = dict(cmd=" ".join(cmd), rc=rc, wall_s=round(wall, 2), timed_out=timed_out, diagnostics=[], json=None, stderr_tail="")
     try:
